@@ -74,7 +74,7 @@ def run(P, rep, tier):
         'R8 line endings detected from the first line on both sides (same function).')
     rep.undecided = 'everything value-level: content resembling headers, NUL bytes, exotic codecs\' byte patterns, equality of decoded text'
     rep.trusted_base += ['summaries of utils/text.py', 'sink/def-use model of the interpreter']
-    R, res = rr.analyse(P)
+    R, res = rr.analyse(P, tier)
     rep.analysed(*R.funcs)
     wcls = P.cls('pydiffx.writer', 'DiffXWriter')
 
